@@ -340,3 +340,10 @@ func sortedKeys[V any](m map[string]V) []string {
 	sort.Strings(ks)
 	return ks
 }
+
+// quietEval evaluates f with naming and side assumptions disabled (terms may contain bound variables).
+func (e *Emitter) quietEval(f func() Term) Term {
+	e.quiet++
+	defer func() { e.quiet-- }()
+	return f()
+}
